@@ -172,13 +172,13 @@ def call_program(prog, fn, d, pool, rng, poisons=None):
                 viol.append(("index-out-of-bounds", f"IndexError: {exc[1]}"))
                 break
         if not viol:
-            if len({e[0] if e else None for e in excs}) > 1:
+            if len({e is not None for e in excs}) > 1:
                 viol.append(("outcome-depends-on-buffer-content", f"exceptions differ between identical calls: {excs}"))
             elif excs[0] is None and len(set(shas)) > 1:
                 which = "poisons %s/%s" % (pa, pb) if shas[0] != shas[1] else "caller buffer vs numpy-allocated buffer"
                 viol.append(("output-depends-on-buffer-content", f"identical calls returned different output bytes ({which}): an output cell is not written or an out-of-range/uninitialised value is read"))
         res["sha"] = shas[0] if excs[0] is None else None
-        res["exc"] = excs[0][0] if excs[0] else None
+        res["exc"] = "raises" if excs[0] else None
     else:
         r1, e1 = guarded(lambda: fn(*args))
         r2, e2 = guarded(lambda: fn(*args))
@@ -189,12 +189,12 @@ def call_program(prog, fn, d, pool, rng, poisons=None):
                 viol.append(("index-out-of-bounds", f"IndexError: {exc[1]}"))
                 break
         if not viol:
-            if (e1[0] if e1 else None) != (e2[0] if e2 else None):
+            if (e1 is None) != (e2 is None):
                 viol.append(("outcome-depends-on-buffer-content", f"exceptions differ between identical calls: {e1} / {e2}"))
             elif e1 is None and s1 != s2:
                 viol.append(("output-not-repeatable", "two identical calls returned different bytes"))
         res["sha"] = s1
-        res["exc"] = e1[0] if e1 else None
+        res["exc"] = "raises" if e1 else None
     after = arg_digest(args)
     if before != after:
         idx = [i for i, (a, b) in enumerate(zip(before, after)) if a != b]
